@@ -488,6 +488,9 @@ func (d *Data) sendBlocksSpecific(ctx *datastore.VersionedCtx, w http.ResponseWr
 	return numBlocks, sendErr
 }
 
+// maxBlockSendBuffer bounds the buffered blocks waiting to be streamed to a client.
+const maxBlockSendBuffer = 10000
+
 // sendBlocksVolume writes a series of blocks covering the given block-aligned subvolume to a HTTP response.
 func (d *Data) sendBlocksVolume(ctx *datastore.VersionedCtx, w http.ResponseWriter, supervoxels bool, scale uint8, subvol *dvid.Subvolume, compression string) error {
 	w.Header().Set("Content-type", "application/octet-stream")
@@ -505,11 +508,19 @@ func (d *Data) sendBlocksVolume(ctx *datastore.VersionedCtx, w http.ResponseWrit
 	timedLog := dvid.NewTimeLog()
 	defer timedLog.Infof("SendBlocks %s, span x %d, span y %d, span z %d", blocksoff, blocksdims.Value(0), blocksdims.Value(1), blocksdims.Value(2))
 
+	if blocksdims.Value(0) < 1 || blocksdims.Value(1) < 1 || blocksdims.Value(2) < 1 {
+		return fmt.Errorf("subvolume size %s must cover at least one block in each dimension", subvol.Size())
+	}
 	numBlocks := int(blocksdims.Prod())
 	wg := new(sync.WaitGroup)
 
-	// launch goroutine that will stream blocks to client
-	ch := make(chan blockSend, numBlocks)
+	// launch goroutine that will stream blocks to client; the buffer is bounded since
+	// the number of requested blocks is under the control of the client.
+	chanSize := numBlocks
+	if chanSize < 1 || chanSize > maxBlockSendBuffer {
+		chanSize = maxBlockSendBuffer
+	}
+	ch := make(chan blockSend, chanSize)
 	var sendErr error
 	go func() {
 		for data := range ch {
